@@ -144,6 +144,15 @@ def _loops_of(node):
     return out
 
 
+def _is_within(node, root):
+    x = node
+    while x is not None:
+        if x is root:
+            return True
+        x = getattr(x, '_parent', None)
+    return False
+
+
 def _ln(stmt):
     ln = getattr(stmt, 'lineno', None)
     return ln if ln is not None else stmt.target.lineno
@@ -174,6 +183,20 @@ def reaching(funcnode, name, at):
     out = []
     for kind, v, stmt in vals:
         if killer is not None and _ln(stmt) < _ln(killer):
+            continue
+        if isinstance(stmt, ast.comprehension):
+            # a comprehension variable is bound for the whole comprehension (the element
+            # expression is written before the `for` clause) and nowhere else
+            owner = getattr(stmt, '_parent', None)
+            inside = False
+            x = at
+            while x is not None:
+                if x is owner:
+                    inside = True
+                    break
+                x = getattr(x, '_parent', None)
+            if inside and not (x is owner and _is_within(at, stmt.iter)):
+                out.append((kind, v, stmt))
             continue
         if _ln(stmt) <= at.lineno:
             if kind.startswith('iter') and any(l is stmt and part == 'iter'
